@@ -173,7 +173,7 @@ func (rn *runner) GenOp(r *vh.Rand, i int) string {
 			rw = rw*3/2 + r.Range(0, 10) // the connection window is usually larger than a stream's
 		}
 		cbnil := 0
-		if r.Chance(3) {
+		if r.Chance(6) {
 			cbnil = 1
 		}
 		return fmt.Sprintf("init %d %d %d", rw, rn.maxWindow(r, rw), cbnil)
@@ -219,7 +219,7 @@ func (rn *runner) GenOp(r *vh.Rand, i int) string {
 		var off int64
 		if f, ok := rn.final[id]; ok {
 			// the final offset is known: mostly consistent retransmissions
-			switch r.Pick(50, 25, 10, 15) {
+			switch r.Pick(60, 30, 4, 6) {
 			case 0:
 				off = r.Range(0, f)
 			case 1:
@@ -232,7 +232,7 @@ func (rn *runner) GenOp(r *vh.Rand, i int) string {
 			return fmt.Sprintf("s.recv %d %d %d %d", id, off, fin, now)
 		}
 		room := min(ss.rw-ss.hr, cs.rw-cs.hr)
-		switch r.Pick(50, 12, 8, 4, 10, 6, 6, 4) {
+		switch r.Pick(58, 12, 3, 1, 10, 6, 1, 1) {
 		case 0: // new data inside both windows
 			if room > 0 {
 				off = ss.hr + 1 + r.Range(0, min(room-1, max(ss.rws/3, 1)))
